@@ -78,6 +78,25 @@ def run(facts, rep, tier):
     else:
         pe_in = pe
     if method not in ("all", "any", "contains", "find", "position", "binary_search"):
+        # an unrecognised form: at least it must be a function of the frame's decoded DF
+        from ..lineexpr import walk
+        inputs = list(walk(pe))
+        for bi2, t2 in proc.calls():
+            if bi2 in reg.blocks and callee_name(t2) == pe[1]:
+                for a in t2["args"]:
+                    r = du.root(a)
+                    if r and r[0] == "rv" and r[1]["rv"].get("agg") == "closure":
+                        for o in r[1]["rv"]["ops"]:
+                            inputs += list(walk(expr(du, o)))
+        if not any(df_of_line(x) for x in inputs):
+            rep.oblige(False, ("filter-form",))
+            rep.add(Finding("R16.1", "%s : the -f decision is not taken on the frame's DF" % proc.name,
+                            "the -f predicate %s does not use get_downlink_format() of the accepted frame: what is compared with the list "
+                            "is not the downlink format of the frame that is then applied and counted" % show(pe)[:140], reg.loc(s2bb)))
+            rep.instances("R16.1", 1, floor=1)
+            rep.instances("R16.2", 1, floor=0)
+            rep.instances("R16.3", 1, floor=0)
+            return
         raise Broken("C16 anchor: filter predicate form not recognised: %s" % show(pe)[:160])
     # the predicate must range over the WHOLE list: only neutral calls between it and the -f payload
     recv = pe_in[2][0]
